@@ -275,19 +275,10 @@ func r17_1(c *Ctx, rule string, lit *ssa.Function) {
 // linkNameTests: the tests `Linkname != ""` on the header or the stat, as
 // assumptions "the member has a link name" / "has none".
 func linkNameTests(c *Ctx, lit *ssa.Function, x *eng.Explorer) (link, nolink map[string]bool) {
-	link, nolink = map[string]bool{}, map[string]bool{}
-	eng.Instrs(lit, func(in ssa.Instruction) {
-		bo, ok := in.(*ssa.BinOp)
-		if !ok || (bo.Op != token.EQL && bo.Op != token.NEQ) {
-			return
-		}
-		if s, isS := eng.ConstString(bo.Y); isS && s == "" && (isFieldLoad(bo.X, "archive/tar.Header.Linkname") || isFieldLoad(bo.X, "types.Stat.Linkname")) {
-			k := x.KeyAtEntry(bo)
-			link[k] = bo.Op == token.NEQ
-			nolink[k] = bo.Op == token.EQL
-		}
-	})
-	return
+	of := func(v ssa.Value) bool {
+		return isFieldLoad(v, "archive/tar.Header.Linkname") || isFieldLoad(v, "types.Stat.Linkname")
+	}
+	return c.emptinessTests(lit, x, true, of), c.emptinessTests(lit, x, false, of)
 }
 
 func r17_2(c *Ctx, rule string, lit *ssa.Function) {
@@ -409,6 +400,29 @@ func r17_3(c *Ctx, rule string, lit *ssa.Function) {
 		}
 	}
 	c.R.Check(mk >= 1, rule, c.name(lit)+"/pax-map", c.P.Pos(lit.Pos()), "PAXRecords is allocated", "PAXRecords is never allocated: assigning a record panics on a nil map")
+	// ... on every path that assigns a record: with the xattr map non-empty
+	// no record assignment is reached without the allocation (the guard of
+	// the allocation has the right polarity)
+	x := c.explorer(lit)
+	pins := c.emptinessTests(lit, x, true, func(v ssa.Value) bool { return isFieldLoad(v, "types.Stat.Xattrs") })
+	if mk >= 1 && len(pins) > 0 {
+		x.Assume = pins
+		x.Barrier = func(in ssa.Instruction, st *eng.State) bool {
+			for _, s := range hdrStores(lit, "PAXRecords") {
+				if in == ssa.Instruction(s) {
+					return true
+				}
+			}
+			return false
+		}
+		x.Target = func(in ssa.Instruction, st *eng.State) bool {
+			mu, ok := in.(*ssa.MapUpdate)
+			return ok && isFieldLoad(mu.Map, "archive/tar.Header.PAXRecords")
+		}
+		x.StopAtTarget = true
+		hits := x.Run()
+		c.R.Check(len(hits) == 0 && !x.Exhausted, rule, c.name(lit)+"/pax-map-before-records", c.P.Pos(lit.Pos()), "with xattrs present the map is allocated before the first record", "with xattrs present a record is assigned before PAXRecords was allocated (the emptiness test guarding the allocation is inverted?): the export panics on the first entry that has xattrs")
+	}
 }
 
 func r17_4(c *Ctx, rule string, lit *ssa.Function) {
